@@ -62,3 +62,28 @@ func VerifPendingSeqs(c *Client) []uint64 {
 	}
 	return out
 }
+
+// VerifXClientServers returns a copy of the server set an XClient currently selects from.
+func VerifXClientServers(x XClient) map[string]string {
+	c, ok := x.(*xClient)
+	if !ok {
+		return nil
+	}
+	c.mu.Lock()
+	defer c.mu.Unlock()
+	out := make(map[string]string, len(c.servers))
+	for k, v := range c.servers {
+		out[k] = v
+	}
+	return out
+}
+
+// VerifFilterByStateAndGroup runs filterByStateAndGroup on a copy of servers.
+func VerifFilterByStateAndGroup(group string, servers map[string]string) map[string]string {
+	out := make(map[string]string, len(servers))
+	for k, v := range servers {
+		out[k] = v
+	}
+	filterByStateAndGroup(group, out)
+	return out
+}
